@@ -1,6 +1,7 @@
 """G4 — backend/sequenceComplexity.py: reduced alphabets."""
 import ast
 from .common import *
+from .pyexpr import Sym, ZBackend
 
 SRC = 'localcider/backend/sequenceComplexity.py'
 OUTPUTS = ['GAlphabets']
@@ -132,7 +133,46 @@ def generate(repo):
              "first component is not ''.join(aa)")
         return 'Definition returns_joined_and_alphabet : bool := true.'
 
+    def positions():
+        g = find_func(tree, 'get_indexed_complexity_vector', 'SequenceComplexity')
+        b = strip_doc(g.body)
+        pro = b[:-2]
+        src = [' '.join(ast.unparse(x).split()) for x in b]
+        need(src[-2] == 'indices = np.arange(index_start, index_end, spacing, dtype=int)' and
+             src[-1] == 'return np.vstack((indices, complexity_vector))', 'positions: arange/vstack tail')
+        at = {'len(complexity_vector)': 'K', 'seq_len': 'N'}
+        defs = []
+        for var in ('spacing', 'index_start', 'index_end'):
+            defs.append('Definition g_%s (N K : Z) : Z :=\n %s.' % (var, Sym(ZBackend(), at).block_result(pro, {}, var)))
+        return '\n'.join(defs)
+
+    def loops():
+        def W(x):
+            return ' '.join(ast.unparse(x).split())
+
+        def has(fn, *frags):
+            src = W(find_func(tree, fn, 'SequenceComplexity'))
+            for fr in frags:
+                need(' '.join(fr.split()) in src, '%s: missing `%s`' % (fn, fr[:50]))
+        has('CWF', 'step = 0', 'while step <= len(sequence) - windowSize:', 'window = sequence[step:step + windowSize]',
+            'for x in alphabet: p = float(window.count(x)) / windowSize if p > 0: CWF = p * math.log(p, len(alphabet)) + CWF',
+            'CWF_array.append(-CWF)', 'step = step + stepSize')
+        has('LC', 'while step <= len(sequence) - windowSize:', 'for i in range(0, windowSize - wordSize):', 'position = step + i',
+            "ngram = ''.join(sequence[position:position + wordSize])", 'if ngram not in ngrams: ngrams.add(ngram)', 'v = len(ngrams)',
+            'vmax = min(len(alphabet) ** wordSize, windowSize - 1 + wordSize)', 'LC = float(v) / vmax', 'step = step + stepSize')
+        has('LZW', 'while step <= len(sequence) - windowSize:', "w = ''", 'for i in range(0, windowSize):',
+            'if w + sequence[position] in ngrams: w = sequence[position] + w else: ngrams.add(w + sequence[position]) w = sequence[position]',
+            'n = len(ngrams)', 'LZW = float(n) / windowSize', 'step += stepSize')
+        for fn, core in (('get_WF_complexity', 'self.CWF(reduced_sequence, alphabet, windowSize, stepSize)'),
+                         ('get_LC_complexity', 'self.LC(reduced_sequence, alphabet, windowSize, stepSize, wordSize)'),
+                         ('get_LZW_complexity', 'self.LZW(reduced_sequence, alphabet, windowSize, stepSize)')):
+            has(fn, 'reduced_sequence, alphabet = self.reduce_alphabet(sequence, alphabetSize, userAlphabet)', core,
+                'return self.get_indexed_complexity_vector(complexity_vector, len(sequence))')
+        return 'Definition g_complexity_loops_ok : bool := true.'
+
     out.add('allowed_sizes', allowed)
+    out.add('positions', positions)
+    out.add('loops', loops)
     out.add('reduce', cascade)
     out.add('return_shape', order)
     return out
